@@ -164,7 +164,7 @@ def generate(rng, tier, scale, **focus):
         spec = g.spec(t, depth)
         if rng.random() < 0.08:
             # the original error has a multi-line message (blank and caret-only lines included)
-            spec = {'k': rng.choice(['tuple', 'pipe']), 'xs': [spec, g.fn('raise_multiline')]}
+            spec = {'k': rng.choice(['tuple', 'pipe']), 'xs': [spec, g.fn(rng.choice(['raise_multiline', 'nested_glom_fail']))]}
         yield {'spec': spec, 'target': ic.enc(t), 'width': rng.choice(WIDTHS), '_gen': True}
         made += 1
 
